@@ -81,7 +81,7 @@ def _launch(ctx, strength, corr=True):
     if corr:
         ctx.futs["corr"] = ex.submit(ctx.run_impl, "c01_impl.py", {"strength": strength, "parts": ["arrays", "rule", "topo"]}, 2400)
     for w in ("V", "K", "W", "Kt"):
-        ctx.futs[w] = ex.submit(ctx.run_impl, "c01_impl.py", {"strength": strength, "parts": ["search"], "operator": w}, 3400,
+        ctx.futs[w] = ex.submit(ctx.run_impl, "c01_impl.py", {"strength": strength, "parts": ["search"], "operator": w}, 7000,
                                 4)
     ctx.futs_strength = strength
 
@@ -121,7 +121,7 @@ def correspond(ctx):
         if [x >= 0 for x in c["cm"]] != c["support"]:
             ctx.corr["disagreements"] += 1
             ctx.problem("correspondence", "space.color_map colours an element outside the support or misses one: %s" % c)
-    outs = U.eval_many(ctx, jobs, workers=4, timeout=1500)
+    outs = U.eval_many(ctx, jobs, workers=4, timeout=3000)
     n_eval, nontriv = 0, 0
     hist = {"get_arrays_cases": len(res["arrays"]), "rule_orders": sorted(int(o) for o in res["rule"]), "rule_orders_structural": sorted(int(o) for o in res.get("rule2", {})),
             "rule_points_compared": sum(len(r["w"]) for r in res["rule"].values()), "grid_topology_cases": len(topo)}
